@@ -2,21 +2,31 @@
 from vf.common import task
 
 LEVEL = "other"
-LEVEL_TEXT = ("Mixed.  Proved on the real balancer.py with symbolic expressions (VSA queries by contract): for every truism-balancing rule and every "
+LEVEL_TEXT = ("Mixed.  Proved on the real balancer.py with symbolic expressions (VSA queries and public constructors by contract): for every truism-balancing rule and every "
               "comparison operator, [[truism]] => [[balanced truism]] for all assignments - except the (rule, operator) pairs recorded as known "
-              "findings, each with a natively replayed witness; the comparison reversal is an equivalence; the implicit assumptions are valid; the "
-              "bounds recorded by _handle_comparison hold under the truism in the comparison's signedness.  Bounded: the Balancer end to end "
-              "(worklist, _balance_if, bound intersection) on enumerated constraints with every satisfying assignment enumerated.")
+              "findings, each with a natively replayed witness; the comparison reversal and the alignment of bit-vector / comparison operands are equivalences; the implicit "
+              "assumptions are valid; every bound recorded by _handle_comparison / _handle_eq / _handle_ne holds under the truism; _handle_if, _balance_if and "
+              "_unpack_truisms push / return only implied truisms and report 'unsatisfiable' only for unsatisfiable truisms; the gate _handleable_truism lets through only "
+              "comparisons of two bit-vectors; _handle dispatches to the handler of the operation; the bound store keeps valid bounds valid and _replacements_iter yields "
+              "`expression ∩ bound symbol` with the value inside the bound symbol's interval; the loops of _balance and _doit are proved by loop invariant (one arbitrary "
+              "iteration of the real loop body with every callee answered by its contract).  Bounded: the Balancer end to end on enumerated constraints with every "
+              "satisfying assignment enumerated (it also stands in for what the composition leaves open: that the implicit assumption completing a one-sided signed bound "
+              "is processed, and _align_truism, whose result is guarded by an identical() self check - C08).")
 EXPLANATION = LEVEL_TEXT
 TECHNIQUE = "rule-by-rule implication proofs (pyvc on the real balancer, z3) + bounded end-to-end enumeration"
 RULE = "bounded: every constraint cmp(shape, constant) over the stated shapes at width 4, every satisfying assignment enumerated; nontrivial = satisfiable"
 B = "vf.contracts.balancer"
-FUNCTIONS = ["Balancer._balance_reverse", "Balancer._balance_add", "Balancer._balance_sub", "Balancer._balance_zeroext", "Balancer._balance_signext",
-             "Balancer._balance_extract", "Balancer._balance_and", "Balancer._balance_concat", "Balancer._balance_lshift", "Balancer._reverse_comparison",
-             "Balancer._get_assumptions", "Balancer._handle_comparison"]
+FUNCTIONS = ["Balancer." + f for f in ["_balance_reverse", "_balance_add", "_balance_sub", "_balance_zeroext", "_balance_signext", "_balance_extract", "_balance_and",
+                                        "_balance_concat", "_balance_lshift", "_balance_if", "_reverse_comparison", "_get_assumptions", "_handle_comparison", "_handle_eq",
+                                        "_handle_ne", "_handle_if", "_handle", "_handleable_truism", "_adjust_truism", "_align_ast", "_align_bv", "_align_sub",
+                                        "_unpack_truisms", "_unpack_truisms_and", "_unpack_truisms_not", "_unpack_truisms_or", "_add_lower_bound", "_add_upper_bound",
+                                        "_replacements_iter", "replacements", "_same_bound_bv", "_min", "_max", "_stride", "_range", "_cardinality", "_balance", "_doit"]]
 TRUSTED = ["z3", "contracts of the VSA queries is_true/is_false/has_true/identical/eval/min/max (C10/C22/C24)", "contracts of the public constructors (C01)"]
-ASSUMPTIONS = ["width 8 for the rules, 4 for the bound extraction; nested shapes from the stated sets",
-               "_balance_if, _handle_eq/_handle_ne/_handle_if, _unpack_truisms and the worklist are covered by the bounded part only"]
+ASSUMPTIONS = ["width 8 for the rules, 4 and 8 for the handlers and the bound store; nested shapes from the stated sets",
+               "_unpack_truisms: recursion depth <= 6 (quick) / 9 (thorough) - the expressions it builds itself come back from the constructor contract with an undecided shape",
+               "loop invariants: the callees of _balance / _doit are answered by their contracts, including the rules recorded as findings (modular: a caller is checked against the callee's contract)",
+               "the bound store: all bounds of one expression are read in one signedness; a signed bound on one side only is completed by the queued implicit assumption (bounded part)",
+               "_align_truism is not under contract: it returns its own rebuild only if identical() says so, and identical() is the subject of a C08 finding; RegionAnnotation branches of _min/_max are not explored (no region annotations in the harness)"]
 
 
 def _known_pairs():
@@ -37,6 +47,21 @@ def tasks(tier, seed=0):
     out.append(task(B, "ob_reverse_comparison", "balancer._reverse_comparison/equivalent", ["C25"], tier=tier))
     out.append(task(B, "ob_assumptions", "balancer._get_assumptions/valid", ["C25"], tier=tier))
     out.append(task(B, "ob_handle_comparison", "balancer._handle_comparison/bounds", ["C25"], tier=tier))
+    # round 4: the rest of the balancer under contract
+    for what in ("eq", "ne", "if"):
+        for w in ((4, 8) if what != "if" else (4,)):
+            out.append(task(B, "ob_handler", f"balancer._handle_{what}/bounds+pushes" + (f"@w{w}" if what != "if" else ""), ["C25"], what=what, w=w, tier=tier))
+    out.append(task(B, "ob_unpack", "balancer._unpack_truisms/implied", ["C25"], tier=tier))
+    for op in balancer.CMP:
+        out.append(task(B, "ob_balance_if", f"balancer._balance_if[{op}]/implied+pushes", ["C25"], cmp=op, w=4, tier=tier))
+    for w in (4, 8):
+        out.append(task(B, "ob_bound_store", f"balancer.bound-store+_replacements_iter/value-in-bound@w{w}", ["C25"], w=w, tier=tier))
+    for what in ("ast-bv", "ast-bool", "adjust_truism"):
+        out.append(task(B, "ob_align", f"balancer.{'_align_ast' if what.startswith('ast') else '_adjust_truism'}[{what}]/same-meaning", ["C25"], what=what, w=8, tier=tier))
+    out.append(task(B, "ob_handleable", "balancer._handleable_truism/gate", ["C25"], tier=tier))
+    out.append(task(B, "ob_handle_dispatch", "balancer._handle/dispatch", ["C25"], tier=tier))
+    out.append(task(B, "ob_balance_loop", "balancer._balance/loop-invariant", ["C25"], tier=tier))
+    out.append(task(B, "ob_doit", "balancer._doit/worklist-invariant", ["C25"], tier=tier))
     kl = sorted({l for f in common.findings_for("C25") for l in f.get("labels", [])})
     kc = sorted({x for f in common.findings_for("C25") for x in f.get("cases", [])})
     n = 8
